@@ -69,19 +69,28 @@ func genMaxSatAPI(r *Rng, tier string) MaxSatCase {
 			c.Coeffs = make([]int, k)
 			sum := 0
 			lo := 0
-			neg := r.Chance(1, 4) // coefficients of either sign
+			neg := r.Chance(1, 4)  // coefficients of either sign
+			zero := r.Chance(1, 5) // and null ones
 			for j := range c.Coeffs {
 				c.Coeffs[j] = r.Range(1, 5)
-				if neg && r.Chance(1, 2) {
+				if zero && r.Chance(1, 3) {
+					c.Coeffs[j] = 0
+				} else if neg && r.Chance(1, 2) {
 					c.Coeffs[j] = -c.Coeffs[j]
 					lo += c.Coeffs[j]
 				} else {
 					sum += c.Coeffs[j]
 				}
 			}
-			c.AtLeast = r.Range(lo+1, sum)
+			if sum < lo+1 {
+				c.AtLeast = lo + 1
+			} else {
+				c.AtLeast = r.Range(lo+1, sum)
+			}
 			if r.Chance(1, 12) {
 				c.AtLeast = sum + 1
+			} else if r.Chance(1, 12) {
+				c.AtLeast = lo - r.Range(0, 2) // holds whatever the assignment
 			}
 		}
 		if r.Chance(3, 5) {
@@ -89,6 +98,16 @@ func genMaxSatAPI(r *Rng, tier string) MaxSatCase {
 			if r.Chance(1, 8) {
 				c.Weight = r.Range(5, 30)
 			}
+		}
+		cs = append(cs, c)
+	}
+	if r.Chance(1, 8) { // a last constraint that always holds, over a variable nothing else mentions: still one of the user's variables
+		c := MSConstr{Lits: []int{-(n + 1)}, Coeffs: []int{-r.Range(1, 3)}, AtLeast: -3}
+		if r.Bool() {
+			c = MSConstr{Lits: []int{n + 1, -(n + 2)}, Coeffs: []int{2, -1}, AtLeast: -1}
+		}
+		if r.Bool() {
+			c.Weight = r.Range(1, 4)
 		}
 		cs = append(cs, c)
 	}
@@ -279,7 +298,13 @@ func runMaxSatCase(o *Oracle, d json.RawMessage, oc *Outcome) {
 			}
 			cs[i] = maxsat.Constr{Lits: lits, Coeffs: co, AtLeast: k.AtLeast, Weight: k.Weight}
 		}
+		var enc *msEncoding
+		maxsat.VerifSetNewHook(func(constrs []solver.PBConstr, costLits, costWeights []int, varNames []string) {
+			enc = &msEncoding{constrs, costLits, costWeights, varNames}
+		})
 		pb := maxsat.New(cs...)
+		maxsat.VerifSetNewHook(nil)
+		encodingMirror(o, oc, c.Constrs, enc)
 		model, cost := pb.Solve()
 		entry := "maxsat.Problem.Solve"
 		// the caller's constraints are his: building and solving must not change them, and the
@@ -368,5 +393,112 @@ func runMaxSatCase(o *Oracle, d json.RawMessage, oc *Outcome) {
 			res2 := s2.Optimal(nil, nil)
 			judge("maxsat.Solver.Optimal(nil)", res2.Status == solver.Unsat, res2.Weight, res2.Model)
 		}
+	}
+}
+
+// msEncoding is what maxsat.New hands to the solver package (reported by the hook in New).
+type msEncoding struct {
+	constrs     []solver.PBConstr
+	costLits    []int
+	costWeights []int
+	varNames    []string
+}
+
+// encodingMirror ties maxsat.New to its Lean mirror GS.MaxSatSigned.newGoS (theorems relaxS_sem,
+// encodingS_sound/complete, optimumS_transfer): the constraints handed to solver.ParsePBConstrs
+// (in order, term for term), the numbering of the user's variables and of the blocking variables,
+// and the cost function (as a multiset: New ranges over a map) must be the mirror's.
+func encodingMirror(o *Oracle, oc *Outcome, cs []MSConstr, enc *msEncoding) {
+	if enc == nil {
+		oc.Fail("corr", "encoding-mirror", "maxsat.New", "the hook in New was not called")
+		return
+	}
+	groups := make([]string, len(cs))
+	for i, k := range cs {
+		if k.Coeffs == nil {
+			groups[i] = strings.TrimSpace(fmt.Sprintf("%d %d 0 %s", k.Weight, k.AtLeast, encInts(k.Lits)))
+		} else {
+			g := fmt.Sprintf("%d %d 1", k.Weight, k.AtLeast)
+			for j := range k.Lits {
+				g += fmt.Sprintf(" %d %d", k.Coeffs[j], k.Lits[j])
+			}
+			groups[i] = g
+		}
+	}
+	want := o.Ask("msencgos " + strings.Join(groups, " ; "))
+	oc.Corr++
+	if want == "panic" || want == "wf-error" || want == "bad-op" {
+		oc.Fail("corr", "encoding-mirror", "maxsat.New", "mirror answered %q for %v", want, cs)
+		return
+	}
+	parts := strings.Split(want, "|")
+	if len(parts) != 3 {
+		oc.Fail("corr", "encoding-mirror", "maxsat.New", "mirror answered %q", want)
+		return
+	}
+	// the mirror lists the arguments New passes to solver.GtEq; the hook sees GtEq's results: the
+	// constructor mirror GS.Constr.gtEq (theorem gtEq_sem) maps one to the other
+	var wantLins []string
+	if t := strings.TrimSpace(parts[0]); t != "" {
+		for _, g := range strings.Split(t, ";") {
+			xs, err := parseIntsLine(g)
+			if err != nil || len(xs)%2 != 1 {
+				oc.Fail("corr", "encoding-mirror", "maxsat.New", "mirror answered %q", want)
+				return
+			}
+			var ws, ls []int
+			for i := 1; i+1 < len(xs); i += 2 {
+				ws, ls = append(ws, xs[i]), append(ls, xs[i+1])
+			}
+			wf := encInts(ws)
+			if len(ws) == 0 {
+				wf = "e"
+			}
+			wantLins = append(wantLins, o.Ask(fmt.Sprintf("gteq %s | %s | %d", encInts(ls), wf, xs[0])))
+		}
+	}
+	lins := make([]string, len(enc.constrs))
+	for i, k := range enc.constrs {
+		ws := k.Weights
+		if ws == nil {
+			ws = make([]int, len(k.Lits))
+			for j := range ws {
+				ws[j] = 1
+			}
+		}
+		lins[i] = fmt.Sprintf("%s | %s | %d", encInts(k.Lits), encInts(ws), k.AtLeast)
+	}
+	gotProblem := strings.Join(lins, " ; ")
+	parts[0] = strings.Join(wantLins, " ; ")
+	names := make([]int, len(enc.varNames))
+	for i, nm := range enc.varNames {
+		if nm != "" {
+			fmt.Sscanf(nm, "v%d", &names[i])
+		}
+	}
+	canonTerms := func(ws, ls []int) string {
+		ts := make([][2]int, len(ls))
+		for i := range ls {
+			ts[i] = [2]int{ls[i], ws[i]}
+		}
+		sort.Slice(ts, func(i, j int) bool { return ts[i][0] < ts[j][0] })
+		return fmt.Sprint(ts)
+	}
+	wantCost, err := parseIntsLine(parts[1])
+	if err != nil || len(wantCost)%2 != 0 {
+		oc.Fail("corr", "encoding-mirror", "maxsat.New", "mirror answered %q", want)
+		return
+	}
+	var ww, wl []int
+	for i := 0; i+1 < len(wantCost); i += 2 {
+		ww, wl = append(ww, wantCost[i]), append(wl, wantCost[i+1])
+	}
+	norm := func(x string) string { return strings.Join(strings.Fields(x), " ") }
+	if norm(gotProblem) != norm(parts[0]) {
+		oc.Fail("corr", "encoding-mirror", "maxsat.New", "constraints handed to the solver: Go %q, mirror GS.MaxSatSigned.newGoS %q for %v", gotProblem, strings.TrimSpace(parts[0]), cs)
+	} else if encInts(names) != strings.TrimSpace(parts[2]) {
+		oc.Fail("corr", "encoding-mirror", "maxsat.New", "variable numbering: Go %v, mirror %q for %v", names, strings.TrimSpace(parts[2]), cs)
+	} else if canonTerms(enc.costWeights, enc.costLits) != canonTerms(ww, wl) {
+		oc.Fail("corr", "encoding-mirror", "maxsat.New", "cost function: Go %v*%v, mirror [c l ...] %v for %v", enc.costWeights, enc.costLits, wantCost, cs)
 	}
 }
